@@ -20,6 +20,7 @@ func switchThreading(v *VM) *val.Val {
 	for {
 		op := opcode(b.code[v.pc])
 		v.pc += 1
+		stepHook(v, op)
 
 		switch op {
 
